@@ -172,6 +172,42 @@ class Noh2PDE(Obligation):
         euler_claims(cx, self.geom - 1)
 
 
+class GuderleyPDE(Obligation):
+    """pre- and post-reflection flow: with dV/dx, dC/dx, dR/dx := g(x, y) (the real right-hand side, executed symbolically)
+    the dimensional fields of state() at x = t_L / r^lambda satisfy the Euler equations"""
+    uses_derivatives = True
+
+    def __init__(self, n, gamma):
+        from . import guderley_common as G
+        self.G = G
+        self.n, self.gamma = n, gamma
+        self.id = 'C01.guderley.n%d.gamma=%s' % (n, gamma)
+        self.m = H.mod(G.GM)
+        self.modules = [self.m]
+        self.extra_shim = G.shim_extra()
+        self.functions = [self.m.state, self.m.g]
+        self.bounds = 'r, Lazarus time t, rho0, lambda (no relation to gamma assumed), B symbolic; gamma fixed; every branch of state() = path'
+        self.skip_validation = True
+        self.timeout_s = 30
+        self.timeout_thorough_s = 900
+
+    def build(self, mk):
+        x = mk('t') / mk('r') ** mk('lam')
+        out = self.G.run_state(mk, self.n, self.gamma, x=x)
+        if Mode.symbolic(mk):
+            out['_rules'] = self.G.ivp_rules(H.term_of(x))
+        return out
+
+    def rules(self, out):
+        return out.get('_rules', {})
+
+    def domain(self, V):
+        return [T.gt(V('r'), T.ZERO), T.gt(V('rho0'), T.ZERO), T.gt(V('lam'), T.ONE), T.gt(V('B'), T.ZERO), T.ne(V('t'), T.ZERO)]
+
+    def claims(self, cx):
+        euler_claims(cx, self.n - 1)
+
+
 class EHEPPDE(Obligation):
     uses_derivatives = True
 
@@ -280,4 +316,7 @@ def obligations(tier):
             o.id = o.id.replace('C04.fan', 'C01.riemann.fan')
             obs.append(o)
     obs.append(EHEPPDE())
+    for n in (2, 3):
+        for gam in ([Fraction(7, 5)] if tier == 'quick' else H.G_FULL):
+            obs.append(GuderleyPDE(n, gam))
     return obs
